@@ -128,6 +128,27 @@ def r_same_result(repo, rep, R='R12.3'):
                 rep.check(h[0] != 'default', R, w, key + ':head',
                           'the head direction is passed explicitly (%s)' % show(h)[:80],
                           'head_is_left is left to its default although a rule result is in scope')
+                if h[0] == 'name' and h[1] in [a_.arg for a_ in fn.args.args]:
+                    # the head direction is handed to a shared node builder: judged at every routine that calls it, with
+                    # the builder read in place -- a file format without a head field must pass the rule's own direction
+                    for c_ in ast.walk(mod.tree):
+                        if isinstance(c_, ast.Call) and isinstance(c_.func, ast.Name) and c_.func.id == fn.name:
+                            caller = enclosing_function(c_)
+                            if caller is None or caller is fn:
+                                continue
+                            wc = '%s:%s %s' % (mod.rel, c_.lineno, qualname_of(caller))
+                            for st2, t2 in call_terms(caller, node):
+                                try:
+                                    b2 = bind_args(t2, mk)
+                                except AnalysisError:
+                                    continue
+                                h2 = b2['head_is_left']
+                                X2 = b2['op_string'][1] if b2['op_string'][0] == 'attr' else None
+                                okh = h2[0] not in ('default', 'const') and (h2[0] != 'attr' or h2[2] != 'head_is_left' or h2[1] == X2)
+                                rep.check(okh, R, wc, '%s:%s:head-through-%s' % (mod.rel, qualname_of(caller), fn.name),
+                                          'the head direction handed to %s is the one read from the file or the recovered rule\'s (%s)' % (fn.name, show(h2)[:60]),
+                                          '%s builds its binary nodes through %s with head_is_left = %s: a constant, although the recovered rule knows the direction '
+                                          '(head-final grammars get every node wrong)' % (qualname_of(caller), fn.name, show(h2)[:40]))
                 if h[0] != 'default' and h[0] == 'attr' and h[2] == 'head_is_left':
                     rep.check(h[1] == X, R, w, key + ':head-same', 'the head direction comes from the same rule result',
                               'head_is_left comes from %s, label from %s' % (show(h[1])[:60], show(X)[:60]))
